@@ -1334,7 +1334,8 @@ def xml_text_diffs(b1, b2):
         return t.rsplit('}', 1)[-1]
 
     def ws_leaf(n):
-        return len(n) == 0 and n.text is not None and n.text != '' and n.text.strip() == ''
+        # (an EMPTY string entry of a string list disappears the same way: get_node_value reads it as None and the entry is not written again)
+        return len(n) == 0 and (n.text is None or n.text.strip() == '')
 
     def walk(n1, n2, path):
         if local(n1.tag) != local(n2.tag) or list(n1.attrib) != list(n2.attrib):
@@ -1356,7 +1357,7 @@ def xml_text_diffs(b1, b2):
                     return False
                 i2 += 1
             elif ws_leaf(c1):
-                out.append((p + (t,), c1.text, None))      # the element disappeared
+                out.append((p + (t,), c1.text or '', None))      # the element disappeared
             else:
                 return False
         return i2 == len(k2)
@@ -1395,7 +1396,7 @@ def classify(f, trig, unit_tags, edge_stream):
             for tp, t1, t2 in d:
                 if near(t1, t2) and any(c in unit_tags for c in tp):
                     k = 'unit-vector-renormalised-on-reassignment'
-                elif t1.strip() == '' and t2 == 'None':
+                elif (t1.strip() == '' and t2 == 'None') or (t1 == '' and t2 is None):
                     k = 'xml-empty-string-in-collection-becomes-None'
                 elif stripped_equal(t1, t2):
                     # (whichever stream drew the value: two serialisations that differ only in the edge whitespace of a text node ARE the
